@@ -139,10 +139,21 @@ class Sched(object):
 
     # -- the scheduling loop (analysing thread) -----------------------------------
     def run(self):
+        # The cyclic garbage collector must not run on a worker thread: it could finalise z3
+        # objects (ctypes calls, GIL released) while the analysing thread is inside z3 - a data
+        # race inside libz3 that was observed as a segmentation fault of the worker process
+        # (about once per 10^4 paths with three threads).  Collection is switched off while
+        # workers exist and happens on the analysing thread afterwards.
+        import gc
+
+        was_enabled = gc.isenabled()
+        gc.disable()
         try:
             self._loop()
         finally:
             self._cleanup()
+            if was_enabled:
+                gc.enable()
 
     def _loop(self):
         ctx = self.ctx
